@@ -221,7 +221,7 @@ def run_case(contract_id, case, props, tier="quick", seed=0, diff=True):
                     continue
                 r = discharge.check(cl.hyps + [z3.Not(cl.goal)], 30)
                 report["solver_time_s"] += r["time_s"]
-                report["obligations"].append({"id": oid0(cl.name, prop), "prop": prop, "kind": cl.kind, "path": 0, "bounded": cl.bounded or contract.bounded or "native grid", "status": "discharged" if r["answer"] == "unsat" else ("refuted" if r["answer"] == "sat" else "unknown"), "clause": cl.name, "params": {}, "schedule": {}, "note": cl.note, "raised": None, "regions": {}, "backend": r["backend"]})
+                report["obligations"].append({"id": oid0(cl.name, prop), "prop": prop, "kind": cl.kind, "path": 0, "bounded": cl.bounded or contract.bounded or "native grid", "status": "discharged" if r["answer"] == "unsat" else ("unknown" if (r["answer"] != "sat" or getattr(cl, "undecided_if_false", False)) else "refuted"), "clause": cl.name, "params": {}, "schedule": {}, "note": cl.note, "raised": None, "regions": {}, "backend": r["backend"]})
         report["diff_points"] = 1
         return report
     try:
